@@ -19,6 +19,7 @@ import (
 	"github.com/tetratelabs/wazero/experimental"
 	"github.com/tetratelabs/wazero/verifharness/core"
 	"github.com/tetratelabs/wazero/verifharness/guardmem"
+	"github.com/tetratelabs/wazero/verifharness/props/c20"
 	"github.com/tetratelabs/wazero/verifharness/wenc"
 	"github.com/tetratelabs/wazero/verifharness/wgen"
 	"github.com/tetratelabs/wazero/verifharness/wrun"
@@ -120,6 +121,11 @@ func run(c *core.Ctx) int {
 		if p.Cache <= 1 && !p.Guard {
 			add(pcase{Directed: "register-pressure", P: p})
 		}
+	}
+	// cross-module call chains (a -> b -> c / host, imports and shared tables) with and without listeners: the scenario
+	// of props/c20/cross.go, of which only the guest-visible verdicts are used here
+	for i := 0; i < c.N(150, 3000); i++ {
+		add(pcase{Directed: "cross-module-listeners", Prog: rng.U64()})
 	}
 	// stage 1: prime the warm directories in separate processes
 	var primes []json.RawMessage
@@ -258,6 +264,20 @@ func dirEntries(dir string) int {
 func child(mode string, in json.RawMessage) any {
 	var pc pcase
 	json.Unmarshal(in, &pc)
+	if pc.Directed == "cross-module-listeners" {
+		var pr presult
+		fs, calls, shape := c20.CrossGuestVisible(pc.Prog)
+		pr.Calls, pr.Events = calls, calls
+		pr.Sample = []string{shape}
+		if len(fs) > 0 {
+			pr.Sig = "listeners-change-cross-module-behaviour:" + strings.TrimPrefix(fs[0].Sig, "cross-module:")
+			pr.Detail = fs[0].Detail
+			if b, err := json.Marshal(fs[0].Witness); err == nil {
+				pr.Bin = string(b)
+			}
+		}
+		return pr
+	}
 	r := core.NewRng(int64(pc.Prog), 5)
 	cfg := wgen.DefaultConfig(r)
 	var p *wgen.Program
